@@ -26,6 +26,7 @@ package parser
 //@ ensures ch < 0 ==> !result
 //@ ensures ch == 95 ==> result
 //@ ensures result ==> ch != 10 && ch != 32 && ch != 9 && ch != 13 && !(48 <= ch && ch <= 57) && ch != 34 && ch != 39 && ch != 96
+//@ ensures [C03] ascii: result ==> ch >= 65 && !(91 <= ch && ch <= 94) && ch != 96 && !(123 <= ch && ch <= 127)
 
 //@ func isDigit
 //@ props C15
@@ -69,9 +70,11 @@ package parser
 //@ requires scanInv(s)
 //@ modifies s.offset, s.lineHead, s.line
 //@ ensures inv: scanInv(s)
+//@ ensures [C03 C15] coupled: s.line >= old(s.line) && (s.line == old(s.line) ==> s.lineHead == old(s.lineHead))
 //@ ensures adv: old(s.offset) < len(s.src) ==> s.offset == old(s.offset) + 1
 //@ ensures eof: old(s.offset) >= len(s.src) ==> s.offset == old(s.offset) && s.lineHead == old(s.lineHead) && s.line == old(s.line)
 //@ ensures head: s.lineHead == old(s.lineHead) || s.lineHead == s.offset
+//@ ensures [C03 C15] nohead: old(s.offset) < len(s.src) && s.src[old(s.offset)] != 10 ==> s.lineHead == old(s.lineHead) && s.line == old(s.line)
 //@ use nl-step(elems(s.src), off(s.src), old(s.offset))
 //@ use nl-bound(elems(s.src), off(s.src), old(s.offset))
 
@@ -89,9 +92,12 @@ package parser
 //@ requires s != nil
 //@ ensures result == s.offset
 
+//@ ghost var posOffset int local
 //@ func (*Scanner).pos
 //@ props C15
 //@ requires scanInv(s)
+//@ modifies posOffset
+//@ ensures [C03] ghost: posOffset == s.offset
 //@ ensures line: result.Line == s.line + 1 && 1 <= result.Line
 //@ ensures col: result.Column == s.offset - s.lineHead + 1 && 1 <= result.Column && result.Column <= len(s.src) - s.lineHead + 1
 //@ ensures lines: result.Line <= nl(elems(s.src), off(s.src), len(s.src)) + 1
@@ -105,8 +111,10 @@ package parser
 //@ requires scanInv(s)
 //@ modifies s.offset, s.lineHead, s.line
 //@ ensures inv: scanInv(s)
+//@ ensures [C03 C15] coupled: s.line >= old(s.line) && (s.line == old(s.line) ==> s.lineHead == old(s.lineHead))
 //@ ensures s.offset >= old(s.offset)
 //@ loop 0 invariant scanInv(s) && s.offset >= old(s.offset)
+//@ loop 0 invariant s.line >= old(s.line) && (s.line == old(s.line) ==> s.lineHead == old(s.lineHead))
 //@ loop 0 decreases len(s.src) - s.offset
 
 // posOK: the position lies inside the text: its line is one of the text's lines, and its column is at most one
@@ -121,8 +129,10 @@ package parser
 //@ requires scanInv(s)
 //@ modifies s.offset, s.lineHead, s.line
 //@ ensures inv: scanInv(s)
+//@ ensures [C03 C15] coupled: s.line >= old(s.line) && (s.line == old(s.line) ==> s.lineHead == old(s.lineHead))
 //@ ensures s.offset >= old(s.offset)
 //@ loop 0 invariant scanInv(s) && s.offset >= old(s.offset) && (ret == nil || fresh(base(ret)))
+//@ loop 0 invariant s.line >= old(s.line) && (s.line == old(s.line) ==> s.lineHead == old(s.lineHead))
 //@ loop 0 decreases len(s.src) - s.offset
 
 //@ func (*Scanner).scanNumber
@@ -130,12 +140,16 @@ package parser
 //@ requires scanInv(s)
 //@ modifies s.offset, s.lineHead, s.line
 //@ ensures inv: scanInv(s)
+//@ ensures [C03 C15] coupled: s.line >= old(s.line) && (s.line == old(s.line) ==> s.lineHead == old(s.lineHead))
 //@ ensures s.offset >= old(s.offset)
 //@ loop 0 invariant scanInv(s) && s.offset >= old(s.offset) && len(result) >= 1 && fresh(base(result))
+//@ loop 0 invariant s.line >= old(s.line) && (s.line == old(s.line) ==> s.lineHead == old(s.lineHead))
 //@ loop 0 decreases len(s.src) - s.offset
 //@ loop 1 invariant scanInv(s) && s.offset >= old(s.offset) && len(result) >= 1 && fresh(base(result))
+//@ loop 1 invariant s.line >= old(s.line) && (s.line == old(s.line) ==> s.lineHead == old(s.lineHead))
 //@ loop 1 decreases len(s.src) - s.offset
 //@ loop 2 invariant scanInv(s) && s.offset >= old(s.offset) && len(result) >= 1 && fresh(base(result))
+//@ loop 2 invariant s.line >= old(s.line) && (s.line == old(s.line) ==> s.lineHead == old(s.lineHead))
 //@ loop 2 decreases len(s.src) - s.offset
 
 //@ func (*Scanner).scanRawString
@@ -143,9 +157,11 @@ package parser
 //@ requires scanInv(s)
 //@ modifies s.offset, s.lineHead, s.line
 //@ ensures inv: scanInv(s)
+//@ ensures [C03 C15] coupled: s.line >= old(s.line) && (s.line == old(s.line) ==> s.lineHead == old(s.lineHead))
 //@ ensures mono: s.offset >= old(s.offset)
 //@ ensures adv: result.1 == nil ==> s.offset >= old(s.offset) + 2 && s.src[s.offset-1] == l
 //@ loop 0 invariant scanInv(s) && s.offset >= old(s.offset) && (ret == nil || fresh(base(ret)))
+//@ loop 0 invariant s.line >= old(s.line) && (s.line == old(s.line) ==> s.lineHead == old(s.lineHead))
 //@ loop 0 decreases len(s.src) - s.offset
 
 //@ func (*Scanner).scanString
@@ -153,14 +169,17 @@ package parser
 //@ requires scanInv(s)
 //@ modifies s.offset, s.lineHead, s.line
 //@ ensures inv: scanInv(s)
+//@ ensures [C03 C15] coupled: s.line >= old(s.line) && (s.line == old(s.line) ==> s.lineHead == old(s.lineHead))
 //@ ensures mono: s.offset >= old(s.offset)
 //@ loop 0 invariant scanInv(s) && s.offset >= old(s.offset) && (ret == nil || fresh(base(ret)))
+//@ loop 0 invariant s.line >= old(s.line) && (s.line == old(s.line) ==> s.lineHead == old(s.lineHead))
 //@ loop 0 decreases len(s.src) - s.offset
 
 //@ func (*Scanner).Scan
 //@ props C15
+//@ like template.scanTokens
 //@ requires scanInv(s)
-//@ modifies s.offset, s.lineHead, s.line
+//@ modifies s.offset, s.lineHead, s.line, posOffset
 //@ ensures inv: scanInv(s)
 //@ ensures mono: s.offset >= old(s.offset)
 //@ ensures pos: posOK(s.src, pos)
@@ -198,7 +217,7 @@ package parser
 //@ func (*Lexer).Lex
 //@ props C15
 //@ requires lexInv(l) && lval != nil
-//@ modifies l.e, l.lit, l.pos, l.s.offset, l.s.lineHead, l.s.line, lval.tok
+//@ modifies l.e, l.lit, l.pos, l.s.offset, l.s.lineHead, l.s.line, lval.tok, posOffset
 //@ ensures inv: lexInv(l)
 //@ ensures pos: posOK(l.s.src, l.pos)
 //@ ensures sticky: old(l.e) != nil ==> l.e != nil
